@@ -28,6 +28,17 @@ CHECKS = {
              '(thorough), plus random large sizes. Held-on-explored; one recorded known finding.',
         note='Frames are built with rsocket.frame_builders; wire size = len(serialize()) + 3 on byte-stream transports.',
         design='4/C03'),
+    'C04': dict(
+        category='exploration',
+        technique='reference splitter oracle over seeded record sequences x enumerated partitions of the byte stream; step-bounded decoder',
+        text='Each generated sequence of valid and malformed records is decoded under many partitions (all 2-partitions '
+             'of short streams, all 3-partitions of very short ones, single bytes, cuts inside every length prefix, '
+             'random k-partitions) by FrameParser.receive_data, through TransportTCP.next_frame_generator on a '
+             'StreamReader with several read sizes, and in message mode; outputs must equal the per-record reference '
+             'and the decoder must stay within a logical step bound. Held-on-explored.',
+        note='Expected output of a record = parse_or_ignore on that record alone (real decoder); the async generator is '
+             'driven synchronously.',
+        design='4/C04'),
     'C13': dict(
         category='exploration',
         technique='reference-model monitor over exhaustively enumerated allocator histories + wire monitor on real endpoints',
@@ -38,6 +49,17 @@ CHECKS = {
              'repository\'s own tests do.',
         design='4/C13'),
 }
+
+CHECKS['C18'] = dict(
+    category='exploration',
+    technique='round-trip oracle over seeded composite-metadata values with boundary lengths, differential across codec backends; exhaustive table bijection and length-limit sweeps',
+    text='Lists of composite entries of every kind are encoded with the public helper constructors, decoded, compared '
+         'entry by entry, and re-encoded (bytes compared), in this process and in a helper with cbitstruct blocked. '
+         'The well-known MIME and authentication tables are checked for bijection exhaustively and name/tag length '
+         'limits are swept exhaustively (1..140, 0..270). Held-on-explored.',
+    note='Custom names as bytes; sentinel enum members with negative ids excluded; raw bodies not generated for the four '
+         'typed MIME types.',
+    design='4/C18')
 
 PENDING_REASON = 'check not built yet in this working session (planned, see DESIGN.md section 4)'
 
